@@ -94,7 +94,7 @@ fn main() {
 
 fn run(tier: &str, stats: &'static Stats) {
     let mut ctx = Ctx::new("C07", tier);
-    start_watchdog(600, "C07");
+    start_watchdog(if tier == "thorough" { 1800 } else { 600 }, "C07");
     let enc = Encode::new(stats);
     let lab = Labels::new(stats);
     ctx.rule = "an instance is one call of one public instruction method of dora_asm::x64::AssemblerX64 with concrete operands (or, in the label programs, one jump / label-relative load together with its distance to the bound label). Non-trivial = at least one extended register (r8-r15 / xmm8-xmm15) in any operand position incl. base/index, or an rsp/r12 (SIB-forced) or rbp/r13 (displacement-forced) base register, or an immediate / displacement / branch distance within 1 of a width boundary (2^7, 2^8, 2^15, 2^16, 2^31, 2^32, i64 extremes). Distinct by content hash of (method, assembler configuration, operands) resp. (reference, distance). evaluations = instances judged by the LLVM oracle (not batches).".into();
@@ -166,7 +166,8 @@ fn run(tier: &str, stats: &'static Stats) {
                 ctx.run_known_reproducers(&d);
                 let sel = d.selection(if ctx.thorough() { 400 } else { 128 });
                 let n = sel.insts.len();
-                ctx.run_enum(&d, vec![sel]);
+                // several mini packages of <= 6000 instances each: compiled and run in parallel
+                ctx.run_enum(&d, sel.insts.chunks(6000).map(|c| encode::Batch { insts: c.to_vec() }).collect());
                 if ctx.thorough() {
                     ctx.run_search(&d, 3, 14_000, 0);
                 }
